@@ -500,6 +500,36 @@ def renumber_surface(deck, old, new):
         cel.geom = swap(cel.geom)
 
 
+def add_unrelated_cards(deck, rng):
+    '''Data cards that have nothing to do with the geometry or the materials
+    (tallies, source, run control): a real deck always has some, and none of
+    them may disturb the conversion.'''
+    cid = str(deck.cells[0].id)
+    pool = [['mode', 'n'], ['nps', '1000'], ['f4:n', cid], ['+f6', cid],
+            ['f6:n', cid], ['fc4', 'flux', 'in', 'the', 'first', 'cell'],
+            ['e4', '1', '10'], ['sdef', 'pos=0', '0', '0', 'erg=1'],
+            ['print'], ['cut:n', 'j', '0.01'], ['phys:n', '20'],
+            ['ctme', '10'], ['prdmp', 'j', 'j', '1'], ['lost', '10', '10'],
+            ['*f1:n', '1'], ['f2:n', '1'], ['+F16', cid], ['fm4', '1'],
+            ['sd4', '1'], ['totnu'], ['kcode', '1000', '1', '10', '50'],
+            ['ksrc', '0', '0', '0']]
+    if deck.mats:
+        pool.append([f'mt{deck.mats[0].id}', 'lwtr.10t'])
+    picks = rng.sample(pool, rng.randint(1, 4))
+    names = set()
+    out = []
+    for card in picks:
+        if card[0].lower() in names:
+            continue
+        names.add(card[0].lower())
+        out.append(card)
+    deck.unrelated_data = out
+    deck.tags.add('data.unrelated-cards')
+    for card in out:
+        if card[0].startswith('+'):
+            deck.tags.add('data.plus-tally')
+
+
 def vary_largest_surface(deck, rng, world=999):
     '''The outer sphere of the generated decks is numbered 999, which makes
     the surfaces the converter generates start at 1001 in every deck.  Give
@@ -554,6 +584,8 @@ def deck_cards(deck, style=None, expand_like=False):
     for mat in deck.mats:
         data.append(mat.atoms())
     for extra in deck.extra_data:
+        data.append(list(extra))
+    for extra in getattr(deck, 'unrelated_data', ()):
         data.append(list(extra))
     for name in getattr(deck, 'params_on_data_cards', ()):
         if name == 'u':
